@@ -7,6 +7,8 @@ def run(req):
     a = req.get("args", {})
     if fn in ("trajgrad.trap_grad", "trajgrad.min_trap_grad"):
         return _trap(fn, a)
+    if fn == "conv.check":
+        return _conv(a)
     if fn == "interp.check":
         return _interp(a)
     if fn == "fourier.fft":
@@ -996,3 +998,67 @@ def _interp(a):
     if gg.shape != wgrid.shape or np.max(np.abs(gg - wgrid)) > 1e-9 * max(1, np.max(np.abs(wgrid))):
         bad.append("gridding differs from the transposed kernel sum by %g" % (np.max(np.abs(gg - wgrid)) if gg.shape == wgrid.shape else -1))
     return dict(reproduced=bool(bad), detail="; ".join(bad) or "matches the documented kernel sums")
+
+
+# ----------------------------------------------------------------------------- C08 convolution
+def _conv(a):
+    import itertools
+    import sigpy as sp
+    rs = np.random.RandomState(int(a.get("seed", 0)))
+    m, n, mode = list(a["m"]), list(a["n"]), a.get("mode", "full")
+    D = len(m)
+    s = list(a.get("strides") or [1] * D)
+    mc, batch = bool(a.get("mc")), list(a.get("batch", []))
+    ci, co = (int(a.get("ci", 2)), int(a.get("co", 3))) if mc else (1, 1)
+    cplx = bool(a.get("complex", True))
+    rnd = lambda sh: rs.standard_normal(sh) + (1j * rs.standard_normal(sh) if cplx else 0)
+    dshape = batch + ([ci] if mc else []) + m
+    fshape = ([co, ci] if mc else []) + n
+    data, filt = rnd(dshape), rnd(fshape)
+    admissible = mode == "full" or all(x >= y for x, y in zip(m, n)) or all(x <= y for x, y in zip(m, n))
+    strides_arg = a.get("strides")
+    try:
+        got = sp.convolve(data.copy(), filt.copy(), mode=mode, strides=strides_arg, multi_channel=mc)
+    except Exception as e:
+        return dict(reproduced=admissible and mode == "full" or (admissible and all(x >= y for x, y in zip(m, n))),
+                    detail="convolve raised %s: %s" % (type(e).__name__, str(e)[:120]))
+    if not admissible:
+        return dict(reproduced=True, detail="inadmissible shape combination was computed instead of rejected")
+    # explicit definition
+    d4 = data.reshape([int(np.prod(batch or [1])), ci] + m)
+    f4 = filt.reshape([co, ci] + n)
+    big = all(x >= y for x, y in zip(m, n))
+    if mode == "full":
+        L = [x + y - 1 for x, y in zip(m, n)]
+        off = [0] * D
+    else:
+        L = [abs(x - y) + 1 for x, y in zip(m, n)]
+        off = [min(x, y) - 1 for x, y in zip(m, n)]
+    p = [-(-l // st) for l, st in zip(L, s)]
+    want = np.zeros([d4.shape[0], co] + p, dtype=complex)
+    for q in itertools.product(*[range(x) for x in p]):
+        r = [q[d] * s[d] + off[d] for d in range(D)]
+        for t in itertools.product(*[range(x) for x in n]):
+            src = [r[d] - t[d] for d in range(D)]
+            if all(0 <= src[d] < m[d] for d in range(D)):
+                for j in range(co):
+                    for i in range(ci):
+                        want[(slice(None), j) + q] += d4[(slice(None), i) + tuple(src)] * f4[(j, i) + t]
+    want = want.reshape(batch + ([co] if mc else []) + p)
+    bad = []
+    if got.shape != want.shape or np.max(np.abs(got - want)) > 1e-9 * max(1, np.max(np.abs(want))):
+        bad.append("convolve differs from the definition (shape %s vs %s, max dev %g)" % (got.shape, want.shape, np.max(np.abs(got - want)) if got.shape == want.shape else -1))
+    else:
+        y = rnd(list(want.shape))
+        da = sp.convolve_data_adjoint(y.copy(), filt.copy(), dshape, mode=mode, strides=strides_arg, multi_channel=mc)
+        fa = sp.convolve_filter_adjoint(y.copy(), data.copy(), fshape, mode=mode, strides=strides_arg, multi_channel=mc)
+        if list(da.shape) != dshape or list(fa.shape) != fshape:
+            bad.append("adjoint shapes %s / %s, requested %s / %s" % (da.shape, fa.shape, dshape, fshape))
+        else:
+            l1, r1 = np.vdot(y, got), np.vdot(da, data)
+            l2, r2 = np.vdot(y, got), np.vdot(fa, filt)
+            if abs(l1 - r1) > 1e-8 * max(1, abs(l1)):
+                bad.append("convolve_data_adjoint is not the adjoint w.r.t. data: %s vs %s" % (l1, r1))
+            if abs(l2 - r2) > 1e-8 * max(1, abs(l2)):
+                bad.append("convolve_filter_adjoint is not the adjoint w.r.t. the filter: %s vs %s" % (l2, r2))
+    return dict(reproduced=bool(bad), detail="; ".join(bad) or "definition and both adjoints hold")
